@@ -60,7 +60,8 @@ Ops == <<
   <<"dual_into_mut_raw_form", "DS", "RS">>, <<"dual_into_mut_raw_form", "DL", "RL">>,
   <<"dual_to_normalized", "DS", "NS">>, <<"dual_to_normalized", "DL", "NL">>,
   <<"dual_as_normalized", "DS", "NS">>, <<"dual_as_normalized", "DL", "NL">>,
-  <<"copy", "RS", "RS">>, <<"copy", "RL", "RL">>, <<"copy", "NS", "NS">>, <<"copy", "NL", "NL">>, <<"copy", "DS", "DS">>, <<"copy", "DL", "DL">> >>
+  <<"copy", "RS", "RS">>, <<"copy", "RL", "RL">>, <<"copy", "NS", "NS">>, <<"copy", "NL", "NL">>, <<"copy", "DS", "DS">>, <<"copy", "DL", "DL">>,
+  <<"clone_from", "RS", "RS">>, <<"clone_from", "RL", "RL">>, <<"clone_from", "NS", "NS">>, <<"clone_from", "NL", "NL">>, <<"clone_from", "DS", "DS">>, <<"clone_from", "DL", "DL">> >>
 
 (* ---- the pool: strings on the borders of the representation ---- *)
 Rep(c, n) == [i \in 1..n |-> c]
